@@ -103,14 +103,14 @@ func genesisState(k int) *State {
 		_ = e.K.SetValidatorInfo(e.Ctx, Vals[v], info)
 	}
 	c1 := nd.TimeRange("c1", TLo, THi)
-	nd.Assume(c1.After(st.T0))
+	nd.Assume(!c1.Before(st.T0)) // an entry completing exactly at the block time is still pending (exclusive end bound)
 	// one shared bucket: entries of two validators and two denoms of the same validator
 	q1, q2, q3 := nd.IntRange("q1", "1", Pow30), nd.IntRange("q2", "1", Pow30), nd.IntRange("q3", "1", Pow30)
 	InstallUnbonding(e, 0, c1, []Entry{{0, 0, q1}, {1, 0, q2}, {0, 1, q3}})
 	// regime for concrete witnesses only (the continuation's slash multiplies these)
 	nd.Hint(nd.And(q1.Equal(math.NewInt(1000)), q2.Equal(math.NewInt(2000)), q3.Equal(math.NewInt(3000))))
 	rc := nd.TimeRange("rc1", TLo, THi)
-	nd.Assume(rc.After(st.T0))
+	nd.Assume(!rc.Before(st.T0))
 	InstallRedelegation(e, 0, 0, 1, 0, nd.IntRange("r1", "1", Pow30), rc)
 	if k == 1 {
 		InstallRedelegation(e, 0, 2, 1, 0, nd.IntRange("r2", "1", Pow30), rc)
